@@ -1,7 +1,7 @@
 #!/bin/sh
 # tools/verify_seed.sh <ID> <variant a|b> : confirm a sub-agent's seeded change in a fresh scratch worktree,
 # then store it under /verif/seeded/<ID>_<variant>/ .  Nothing is ever applied to /repo here.
-ID="$1"; V="$2"; SRC="${SEEDROOT:-/tmp/seed}/$ID/_out/$V"; WT="/tmp/sv_${ID}_$V"; OUT="/verif/seeded/${ID}_$V"
+ID="$1"; V="$2"; SRC="${SEEDROOT:-/tmp/seed}/$ID/_out/$V"; WT="/tmp/sv_${ID}_$V"; OUT="/verif/seeded/${ID}_${DESTV:-$V}"
 [ -f "$SRC/patch.diff" ] || { echo "$ID $V: no patch"; exit 2; }
 git -C /repo worktree remove --force "$WT" >/dev/null 2>&1
 git -C /repo worktree add -q --detach "$WT" HEAD || exit 2
